@@ -44,6 +44,8 @@ func NewBarrier(count int, f func(msgTs uint64, b *Barrier), u func(vchannel str
 		for current < barrier.Dest {
 			select {
 			case <-barrier.CloseChan:
+				// the collection has been stopped, the barrier will never be reached
+				return
 			case signal := <-barrier.BarrierSignalChan:
 				if u != nil {
 					u(signal.VChannel, signal.Msg)
